@@ -222,6 +222,10 @@ func (r *Recorder) Result() *Resp {
 		// returns without writing anything.
 		out.Status = 200
 		out.Header = r.hdr.Clone()
+		if v := out.Header.Get("Content-Length"); v != "" && v != "0" && !r.head {
+			// the server would send the declared length, get nothing and cut the connection
+			out.Err = "declared Content-Length " + v + " but wrote 0 bytes (the server would cut the connection)"
+		}
 		return out
 	}
 	if r.writeErr != nil {
